@@ -26,7 +26,7 @@ RULE = ('A: BFS over operation histories (insert/overwrite/pop/copy/clear/invali
         'map holds >=2 names sharing a suffix or the spelling pair differs.')
 ASSUMPTIONS = ['name alphabet {a,b,c} with <=3 components stored and <=4 queried; at most 2 live map objects',
                'reference model: flat dict + brute-force suffix test']
-WITNESSES = ['ambiguous', 'exact_precedence', 'unknown', 'minimal_shorter_than_full', 'copy_diverged',
+WITNESSES = ['unknown_skipped_silently', 'ambiguous', 'exact_precedence', 'unknown', 'minimal_shorter_than_full', 'copy_diverged',
              'pop_pruned', 'spelling_pair_same_key', 'hook_conflict_detected', 'api_ambiguous_rejected']
 
 POOL_Q = ['b', 'a.b', 'c.a.b', 'c.b', 'a.a', 'b.a', 'a.c.b', 'c', 'a.B']
@@ -372,8 +372,18 @@ def binders():
   def b_pbk(scope, sp, v):
     gin.bind_parameter(cfg.ParsedBindingKey.parse((scope, sp, 'x')), v)
 
+  # lenient parsing drops statements about UNKNOWN names only: an ambiguous name stays an error, a known one binds
+  def b_text_skip(scope, sp, v):
+    gin.parse_config('%s%s.x = %r' % (scope + '/' if scope else '', sp, v), skip_unknown=True)
+
+  def b_block_skip(scope, sp, v):
+    gin.parse_config('%s%s:\n  x = %r\n' % (scope + '/' if scope else '', sp, v), skip_unknown=True)
+
+  def b_text_list_skip(scope, sp, v):
+    gin.parse_config('%s%s.x = %r' % (scope + '/' if scope else '', sp, v), skip_unknown=[sp, 'nothing.else'])
+
   return [('str', b_str), ('tuple', b_tuple), ('list', b_list), ('text', b_text), ('block', b_block),
-          ('pbk', b_pbk)]
+          ('pbk', b_pbk), ('text_skip', b_text_skip), ('block_skip', b_block_skip), ('text_list_skip', b_text_list_skip)]
 
 
 def readers():
@@ -424,6 +434,14 @@ def run_b_case(case, res):
     b_out = 'ok'
   except Exception as e:  # pylint: disable=broad-except
     b_out = type(e).__name__
+  if tb == 'UNKNOWN' and bn.endswith('_skip'):
+    res.outcome('bind:UNKNOWN_skipped:' + b_out)
+    if b_out != 'ok' or gin.config_str() != before:
+      res.violation('skip_unknown_not_silent', 'lenient parse (%s) of unknown spelling %r: %s, config changed=%s' %
+                    (bn, sp_b, b_out, gin.config_str() != before), case)
+    else:
+      res.w('unknown_skipped_silently')
+    return
   if tb in ('AMBIG', 'UNKNOWN'):
     res.outcome('bind:' + tb + ':' + b_out)
     if b_out == 'ok':
